@@ -2431,13 +2431,22 @@ func mashRound7(c *Ctx) {
 	n, k := 1<<22+3000, 21
 	seq := c.bytesFrom([]byte("ACGT"), n)
 	m := n/2 + 17
-	whole := sketchOf(500, k, seq)
-	parts := sketchOf(500, k, seq[:m+k-1], seq[m:])
+	// a sketch large enough to hold every k-mer: equal sketches <=> equal k-mer sets
+	size := n + 10
+	whole := mash.Sequences(size, k, seq).View()
+	parts := mash.Sequences(size, k, seq[:m+k-1], seq[m:]).View()
 	oracle := ""
-	if whole != parts {
-		oracle = fmt.Sprintf("the sketch of a %d-base sequence differs from the sketch of two overlapping pieces with the same %d-mers", n, k)
+	if len(whole) != len(parts) {
+		oracle = fmt.Sprintf("the sketch (large enough for every k-mer) of a %d-base sequence holds %d values, the sketch of two overlapping pieces with the same %d-mers holds %d", n, len(whole), k, len(parts))
+	} else {
+		for i := range whole {
+			if whole[i] != parts[i] {
+				oracle = fmt.Sprintf("the sketch of a %d-base sequence differs from the sketch of two overlapping pieces with the same %d-mers (value %d)", n, k, i)
+				break
+			}
+		}
 	}
-	c.add(Case{Kind: "mash-multi-million", Nontrivial: true, Oracle: oracle, Note: fmt.Sprintf("mash.Sequences(500, %d) of %d bases, whole and in two overlapping pieces", k, n)})
+	c.add(Case{Kind: "mash-multi-million", Nontrivial: true, Oracle: oracle, Note: fmt.Sprintf("mash.Sequences(%d, %d) of %d bases, whole and in two overlapping pieces", size, k, n)})
 }
 
 func mashRound6(c *Ctx) {
